@@ -25,6 +25,7 @@ package config
 //@ func parsePlugins
 //@   modifies everything
 //@   ensures[C18:one-entry-per-item-in-order] ret1 == nil ==> len(ret0) == len(pluginList)
+//@   assert[C18:item-names-exactly-one-plugin] before "append(plugins": len(conf) == 1
 //@   loop 1: invariant len(plugins) == rangeindex + 1 && cap(plugins) >= len(pluginList) && rangeindex + 1 <= len(pluginList)
 
 //@ func (*Config).getPlugins
